@@ -41,7 +41,8 @@ def bounds(tier):
 
 
 def _grids(tier):
-    g = [U.spec("Grid1D", (3,), ("I",), 0), U.spec("Grid2D", (2, 2), ("U", "I"), 0)]
+    g = [U.spec("Grid1D", (3,), ("I",), 0), U.spec("Grid2D", (2, 2), ("U", "I"), 0),
+         U.spec("SphericalGrid1D", (2,), ("I",), 0)]
     if tier == "thorough":
         g += [U.spec("CylindricalGrid2D", (2, 2), ("I", "U"), 1), U.spec("PolarGrid2D", (2, 3), ("I", "U"), 1),
               U.spec("Grid3D", (2, 1, 2), ("U", "U", "I"), 0), U.spec("SphericalGrid3D", (2, 2, 2), ("I", "I", "U"), 1)]
